@@ -158,6 +158,7 @@ structure CallCfg where
   purgeClears : Bool           -- the set of temporaries is emptied
   assignsTarget : Bool         -- the source is `target = f(…)`
   purgesAfterCall : Bool       -- call() runs `_purge_temporaries` after executing
+  tempPrefix : String          -- temporaries are called <prefix>arg_<i> / <prefix>kwarg_<name> (only spelling)
   understood : Bool
   deriving Repr, DecidableEq
 
@@ -176,6 +177,12 @@ structure St where
 def usesLiteral (cfg : CallCfg) (a : Arg) : Bool :=
   decide (a.reprLen ≤ cfg.maxLen) && (!cfg.checksLiteral || a.literal)
 
+/-- `if key in self.data: self._backup_variables[key] = self.data[key]` -/
+def tmpBackups (cfg : CallCfg) (st : St) (key : Key) : NS :=
+  match NS.get? st.data key with
+  | some old => if cfg.backsUp then NS.set st.backups key old else st.backups
+  | none => st.backups
+
 /-- `_make_temporary(category, name, value)` -/
 def makeTemporary (cfg : CallCfg) (st : St) (key : Key) (a : Arg) : ArgRef × St :=
   match a.varName with
@@ -183,12 +190,9 @@ def makeTemporary (cfg : CallCfg) (st : St) (key : Key) (a : Arg) : ArgRef × St
   | none =>
     if usesLiteral cfg a then (.lit a.reprText, st)
     else
-      let backups := match NS.get? st.data key with
-        | some old => if cfg.backsUp then NS.set st.backups key old else st.backups
-        | none => st.backups
       (.tmp key, { data := NS.set st.data key a.val,
                    temps := if st.temps.contains key then st.temps else key :: st.temps,
-                   backups := backups })
+                   backups := tmpBackups cfg st key })
 
 /-- The keys `_construct_call` uses: positional arguments are numbered from `i`, keyword arguments go by name. -/
 def posKeys : Nat → List Arg → List (Key × Arg)
@@ -272,22 +276,39 @@ structure CallResult where
   passed : Option (List Nat)         -- the values the function is applied to (same order)
   outcome : Outcome
 
+/-- `_construct_call`: every argument through `_make_temporary`. -/
+def callPrepared (cc : CallCfg) (st : St) (args : List Arg) (kwargs : List (String × Arg)) : List ArgRef × St :=
+  constructList cc st (posKeys 0 args ++ kwKeys kwargs)
+
+/-- The namespace the generated call is executed in. -/
+def callData (cc : CallCfg) (mc : MockCfg) (ov : String → Nat) (st : St) (args : List Arg)
+    (kwargs : List (String × Arg)) : NS :=
+  startExecution mc ov (callPrepared cc st args kwargs).2.data
+
+def callPassed (cc : CallCfg) (mc : MockCfg) (ov : String → Nat) (E : Env) (st : St) (args : List Arg)
+    (kwargs : List (String × Arg)) : Option (List Nat) :=
+  evalRefs E (callData cc mc ov st args kwargs) (callPrepared cc st args kwargs).1
+
+/-- Executing `f(<args>)`: look `f` up, evaluate the argument texts, apply. -/
+def callOutcome (cc : CallCfg) (mc : MockCfg) (ov : String → Nat) (E : Env) (st : St) (f : String)
+    (args : List Arg) (kwargs : List (String × Arg)) : Outcome :=
+  match NS.get? (callData cc mc ov st args kwargs) (.name f) with
+  | none => Outcome.raise nameError
+  | some fv => match callPassed cc mc ov E st args kwargs with
+    | none => Outcome.raise argEvalError
+    | some vs => E.apply fv (vs.take args.length) ((kwargs.map (·.1)).zip (vs.drop args.length))
+
 /-- `Sandbox.call(f, *args, target=…, **kwargs)` on the student namespace. -/
 def callStep (cc : CallCfg) (mc : MockCfg) (ov : String → Nat) (E : Env) (st : St) (f : String)
     (args : List Arg) (kwargs : List (String × Arg)) (target : Option String) : CallResult :=
-  let c := constructList cc st (posKeys 0 args ++ kwKeys kwargs)
-  let st1 := c.2
-  let data1 := startExecution mc ov st1.data
-  let passed := evalRefs E data1 c.1
-  let outcome := match NS.get? data1 (.name f) with
-    | none => Outcome.raise nameError
-    | some fv => match passed with
-      | none => Outcome.raise argEvalError
-      | some vs => E.apply fv (vs.take args.length) ((kwargs.map (·.1)).zip (vs.drop args.length))
+  let st1 := (callPrepared cc st args kwargs).2
+  let data1 := callData cc mc ov st args kwargs
+  let outcome := callOutcome cc mc ov E st f args kwargs
   let data2 := match outcome, target with
     | .ret v, some t => if cc.assignsTarget then NS.set data1 (.name t) v else data1
     | _, _ => data1
   let st2 : St := { st1 with data := data2 }
-  { st := if cc.purgesAfterCall then purge cc st2 else st2, refs := c.1, passed := passed, outcome := outcome }
+  { st := if cc.purgesAfterCall then purge cc st2 else st2, refs := (callPrepared cc st args kwargs).1,
+    passed := callPassed cc mc ov E st args kwargs, outcome := outcome }
 
 end Pedal.SandboxEquiv
